@@ -80,6 +80,7 @@ class IdSource(object):
         self.rng = random.Random(derive(seed, "ids"))
         self.states = []
         self.repeat_next = None     # index into self.states
+        self.repeat_times = 1       # how many consecutive draws repeat it (a stuck entropy pool)
         self.draws = 0
         self.repeats_fired = 0
 
@@ -87,7 +88,10 @@ class IdSource(object):
         self.draws += 1
         if self.repeat_next is not None and self.states:
             st = self.states[self.repeat_next % len(self.states)]
-            self.repeat_next = None
+            self.repeat_times -= 1
+            if self.repeat_times <= 0:
+                self.repeat_next = None
+                self.repeat_times = 1
             self.repeats_fired += 1
             r = random.Random()
             r.setstate(st)
